@@ -1,6 +1,12 @@
 #ifndef HGRAPH_UTIL_VERIF_HOOK_H
 #define HGRAPH_UTIL_VERIF_HOOK_H
 
+// Set when src/hgraph/runtime/executor.cpp calls the hooks below: the real-time
+// run loop consults wall_clock_override() and announces the sync points
+// run.cycle.top, run.advance.done, rt.wait.before, rt.wait.after,
+// rt.push.{enter,locked,unlocked,notified} and rt.stop.{enter,locked,unlocked,notified}.
+#define HGRAPH_VERIF_RTLOOP_POINTS 1
+
 // Verification hooks (add-only instrumentation, used by an external
 // verification harness). Everything here is inert unless the process was
 // started with the environment variable HGRAPH_VERIF=1 *and* the harness has
